@@ -158,6 +158,14 @@ fn test(case: &Case, st: &mut Stats, counting: bool) -> CaseResult {
             let b = exec(&phys.root, &op);
             trace.push(format!("{} -> mem {} / phys {}", op.render(), a.class_str(), b.class_str()));
             compare(&op, &shadow, &a, &b).map_err(|m| (step, format!("{}: {}", op.render(), m)))?;
+            if let Op::Read(path) = &op {
+                // open_file is a call of its own: it must succeed / fail on both backends alike
+                let om = at(&mem.root, path).map(|p| p.open_file().is_ok()).unwrap_or(false);
+                let oph = at(&phys.root, path).map(|p| p.open_file().is_ok()).unwrap_or(false);
+                if om != oph {
+                    return Err((step, format!("open_file('{}') {} on MemoryFS but {} on PhysicalFS", path, if om { "succeeds" } else { "fails" }, if oph { "succeeds" } else { "fails" })));
+                }
+            }
             let sa = full_snapshot(&mem.root, &uni);
             let sb = full_snapshot(&phys.root, &uni);
             if !sa.problems.is_empty() || !sb.problems.is_empty() {
@@ -231,7 +239,7 @@ pub fn run(ctx: &RunCtx) -> i32 {
         println!("VIOLATION property={} replay={}", ctx.id, path);
         return 1;
     }
-    let (stats, failure) = run_sharded(ctx, "lockstep", ctx.tier.pick(2000, 30_000), strategy, test);
+    let (stats, failure) = run_sharded(ctx, "lockstep", ctx.tier.pick(5000, 40_000), strategy, test);
     write_evidence(ctx, "exploration", RULE, &stats, json!({"regress_replayed": reg.replayed}), &["Linux, scratch filesystem tmpfs/ext4", "timestamps, message texts and other I/O error kinds are excluded by the property", "no seeks on append handles (O_APPEND differs by design)"], failure.is_some() as u32);
     finish(ctx, &stats, &failure, &[("distinct_nontrivial", 100), ("wrong_typed_calls", 200), ("read_scripts", 50)])
 }
